@@ -19,6 +19,7 @@ import GardenVerif.Driver.Resume
 import GardenVerif.Driver.Validators
 import GardenVerif.Driver.EvalUpTo
 import GardenVerif.Driver.Extract
+import GardenVerif.Driver.Fixes
 /-!
 Line-protocol driver for the executable models. One request per line on stdin,
 one response line per request on stdout. Imports only `Model` / `Driver` modules
@@ -26,7 +27,7 @@ one response line per request on stdout. Imports only `Model` / `Driver` modules
 -/
 
 def handlers : List (String → String → Option String) :=
-  [DriverTypes.handle, DriverParse.handle, DriverLspPos.handle, DriverLspDispatch.handle, DriverMachine.handle, DriverLex.handle, DriverPrelude.handle, DriverImports.handle, DriverFormat.handle, DriverSandbox.handle, DriverStrings.handle, DriverArith.handle, DriverNrepl.handle, DriverBigStep.handle, DriverSession.handle, DriverCheck.handle, DriverTestRunner.handle, DriverResume.handle, DriverValidators.handle, DriverEvalUpTo.handle, DriverExtract.handle]
+  [DriverTypes.handle, DriverParse.handle, DriverLspPos.handle, DriverLspDispatch.handle, DriverMachine.handle, DriverLex.handle, DriverPrelude.handle, DriverImports.handle, DriverFormat.handle, DriverSandbox.handle, DriverStrings.handle, DriverArith.handle, DriverNrepl.handle, DriverBigStep.handle, DriverSession.handle, DriverCheck.handle, DriverTestRunner.handle, DriverResume.handle, DriverValidators.handle, DriverEvalUpTo.handle, DriverExtract.handle, DriverFixes.handle]
 
 def dispatch (line : String) : String :=
   let line := line.trimAscii.toString
